@@ -35,11 +35,18 @@ def _bootstrap() -> None:
 
 
 def load_findings() -> list[dict]:
+    out: list[dict] = []
     path = os.path.join(ROOT, "known_findings.json")
-    if not os.path.exists(path):
-        return []
-    with open(path) as f:
-        return json.load(f).get("findings", [])
+    if os.path.exists(path):
+        with open(path) as f:
+            out.extend(json.load(f).get("findings", []))
+    ddir = os.path.join(ROOT, "findings.d")  # per-property drafts, merged into known_findings.json by tools/merge_findings.py
+    if os.path.isdir(ddir):
+        for name in sorted(os.listdir(ddir)):
+            if name.endswith(".json"):
+                with open(os.path.join(ddir, name)) as f:
+                    out.extend(json.load(f).get("findings", []))
+    return out
 
 
 def main() -> int:
@@ -112,7 +119,8 @@ def main() -> int:
         return 2
 
     # ---- classify ---------------------------------------------------------
-    rdir = os.path.join(ROOT, "evidence", "replay")
+    evdir = os.environ.get("VERIF_EVIDENCE_DIR") or os.path.join(ROOT, "evidence")
+    rdir = os.path.join(evdir, "replay")
     os.makedirs(rdir, exist_ok=True)
     violations = []
     known_hit = []
@@ -154,8 +162,8 @@ def main() -> int:
             "wall_s": round(time.time() - t0, 2),
             "violations": len(violations),
         }
-        os.makedirs(os.path.join(ROOT, "evidence"), exist_ok=True)
-        with open(os.path.join(ROOT, "evidence", f"{prop}.json"), "w") as f:
+        os.makedirs(evdir, exist_ok=True)
+        with open(os.path.join(evdir, f"{prop}.json"), "w") as f:
             json.dump(ev, f, indent=1, default=repr)
             f.write("\n")
         if ctx.evaluations < 1 or ctx.distinct_nontrivial < 2:
